@@ -30,7 +30,7 @@ PARALLEL = 6
 IMPORTS = "From Verif Require Import C20.Model C20.Spec C20.Proofs C20.Corr."
 CASE_TYPE = "C20.Corr.case"
 RUNNER = "C20.Corr.run"
-FINDING_CLASSES = {1: "C20-F1"}
+FINDING_CLASSES = {1: "C20-F1", 2: "C20-F2", 3: "C20-F3"}
 RULE = ("schedules = lists of thread ids, one entry = run that real thread to its next gate.  Complete enumeration of "
         "ALL interleavings for 2 threads with all six gates (entry+exit of get_signer / sign / verify; 252 schedules per "
         "configuration) over the configurations {sign|sign same alg, sign|sign different alg, sign|verify(cert), "
@@ -61,14 +61,33 @@ RULE = ("schedules = lists of thread ids, one entry = run that real thread to it
         "very object re-pointed; complete over {Saml2Client, Server} x {copy, reload, re-point} x {derived after / before "
         "the parent entity is built} x {other path, same path rolled over, same path same pair}; seeded: "
         "security_context(parent) in between, parent signed before, same / own entityid, chains A->B->C with the root "
-        "re-pointed last, one object walking k0,k1,k0, random scripts.  non-trivial (pool) = an OS thread serves two "
-        "entities, or a path is re-installed, or a configuration object is derived / re-pointed")
+        "re-pointed last, one object walking k0,k1,k0, random scripts.  CONFIGURATION SOURCES (src- cases, round 5): entities "
+        "built from a dict (load / config_factory), a Config object and python configuration FILES written into a fresh "
+        "scratch directory per case (load_file, config_factory(type, file), config_file= of Saml2Client / Server; absolute / "
+        "relative to the working directory, with / without '.py'); complete over {same base name in two directories, two "
+        "base names in one directory, two base names in two directories, the same file twice} x {entry point} x "
+        "{Saml2Client, Server} (load order, third load, spelling, working directory seeded), complete over {spelling} x "
+        "{working directory: scratch, tenant a, tenant b} for the same base name in two directories, every load order of "
+        "three tenants with one base name, every interleaving (entry gates; quick: 8 of 20) of two such tenants signing; "
+        "files edited / removed / rewritten after a load (first-loaded directory: stale; second directory: seen), key "
+        "files rolled over under a module that stays, files that do not exist (answered by another directory's module: "
+        "C20-F3; or raising), all kinds of sources in one process with all gates; loads by the main thread before the pool "
+        "threads start AND while they wait at their gates; seeded random scripts.  sys.path / sys.modules / importer "
+        "caches / working directory are restored after each case.  non-trivial (pool) = an OS thread serves two "
+        "entities, or a path is re-installed, or a configuration object is derived / re-pointed, or a configuration "
+        "file is involved")
 TRUSTED = ["deterministic scheduler + gate wrappers / trace hooks in harness/c20.py (one worker runs at a time; switches "
            "only at gates, or at line / bytecode events in the fine modes)",
            "reference signatures / certificate verification done with the `cryptography` package directly",
            "identification of a signature value with (key, digest, octets) by byte equality with the reference",
            "deployment steps carried out by harness/c20.py (files written / renamed / symlinked, os.utime); a published "
            "certificate is identified with a fixture key pair by equality of its base64 body",
+           "configuration modules written / edited / removed by harness/c20.py (_write_conf: CONFIG = repr of the dict of "
+           "harness/world.py), importlib.invalidate_caches() after each change (what importlib's documentation asks of a "
+           "program that creates modules while it runs), sys.dont_write_bytecode during a case (a pyc is validated by mtime in "
+           "seconds + size: PYTHON itself would not see an edit within the second), ImportState (restoring sys.path, "
+           "sys.modules, sys.path_importer_cache, the working directory); relative entries of sys.path_importer_cache are "
+           "dropped at the start of a case (importlib freezes the directory of '.' when the entry is first used)",
            "source-to-Gallina translator v2 harness/py2coq2.py + coq/theories/Base/Py2.v (its trusted base: notes/translator_v2.md) "
            "and the specs in harness/c20.py:src2_items.  Re-translated from the CURRENT text on every run into coq/gen/C20Src2.v "
            "and proved equal to the model for all inputs (c20_source2_*): sigver.RSACrypto.get_signer (with the module table "
@@ -76,7 +95,9 @@ TRUSTED = ["deterministic scheduler + gate wrappers / trace hooks in harness/c20
            "explicit key), sigver.RSASigner.verify, pack.http_redirect_message (theorem: sign=True, typ SAMLRequest / SAMLResponse; "
            "SIG_ALLOWED_ALG, REQ_ORDER, RESP_ORDER read from the text), config.Config.getattr (theorem: context '' and context "
            "None), sigver.security_context (theorem: crypto_backend xmlsec1 with an existing xmlsec_binary and a key_file; any "
-           "further attributes on the Config object; the Config object is returned unchanged).  Pinned by text (ast) instead of "
+           "further attributes on the Config object; the Config object is returned unchanged), config.Config._load (theorem: "
+           "every loader state, directory and base name: the module handed back is Source2.load_which = Model.load_module) and "
+           "config.Config.load_file (name with / without '.py'; CONFIG deep-copied into self.load).  Pinned by text (ast) instead of "
            "translated: RSASigner.__init__, Signer.__init__, RSACrypto.__init__ (replaced by object displays), the "
            "sec_backend / my_cert / key_file / cert_file / crypto / metadata assignments of SecurityContext.__init__, the "
            "None defaults of get_signer(sigkey) and sign(key)",
@@ -95,8 +116,22 @@ ASSUMPTIONS = ["ideal signatures (hypothesis of c20_own_key; real RSA PKCS#1 v1.
                "a configuration object is, for the model, the path it names at the moment an entity is built from it (its "
                "origin and history are irrelevant: c20_config_origin_irrelevant); exhibited by the lineage cases.  Config "
                "objects are derived by copy.copy / dict reload / re-pointing only (copy.deepcopy of a loaded Config fails in "
-               "the unchanged library: its MetadataStore holds an RSA key object); configurations loaded from python "
-               "modules (config_file=, importlib cache) are not exercised"]
+               "the unchanged library: its MetadataStore holds an RSA key object)",
+               "python configuration files: 'the certificate of the entity' is one its OWN file accounts for (Spec.own_source: a "
+               "path that very file has named, the pair installed there when the entity is built).  A file EDITED after its "
+               "first load is answered by importlib from sys.modules: the entity holds the pair its own file named BEFORE "
+               "(key and certificate consistent) - modelled as it is, exhibited (src-edit-*, src-unlink-rewrite), counted in "
+               "input_distribution.sources, NOT counted as a violation of C20 (no other entity's key is involved; the strict "
+               "reading 'what the file says when the entity is built' is theorem c20_deploy_own_pair under no_reedit, and "
+               "c20_loader_stale_not_fresh shows that hypothesis necessary).  A file that does not exist answered by another "
+               "directory's module IS counted (finding C20-F3, open)",
+               "the process's own sys.path holds no configuration modules and no entry for the working directory ('' / '.'; "
+               "dropped by ImportState for the time of a case): the model's search path starts empty.  An application directory "
+               "on sys.path that holds a module of the name asked for is one more way into C20-F3",
+               "not covered: os.chdir between two loads (importlib freezes the directory of a relative sys.path entry at first "
+               "use - the working directory is fixed within a case, varied across cases), configuration modules that import "
+               "further modules, packages / dotted module names, .pyc files (bytecode writing is switched off), symlinked "
+               "tenant directories (os.path.samefile), loads by two threads at the same time (importlib's import lock)"]
 
 
 
@@ -269,6 +304,15 @@ def _secctx_obj(a, kw):
                                           kw["enc_key_files"]))
 
 
+def _module_file(a):
+    """getattr(mod, "__file__", None) -> the field "file" of the module object, None when it has none"""
+    from harness.py2coq2 import Untranslatable, cstr
+
+    if len(a) != 3 or a[1] != "(PStr %s)" % cstr("__file__") or a[2] != "PNone":
+        raise Untranslatable("getattr(...) other than getattr(<module>, '__file__', None)")
+    return '(p2_getattr3 %s "file" PNone)' % a[0]
+
+
 def src2_items():
     """[(path, qualname, spec)] for harness.py2coq2: the decision functions of the anchored code that Model.v mirrors.
     External calls (RSA signing / verification, urlencode, DEFLATE+base64, file reads, the xmlsec1 wrapper) are extra
@@ -331,6 +375,35 @@ def src2_items():
                       "string.encode": lambda a: "(str_encode v_string %s)" % a[0],
                       "backend.get_signer": get_signer1, "signer.sign": sign1}}),
         (conf, "Config.getattr", {"name": "src2_config_getattr", "params": ["self", "attr", "context"]}),
+        # the loader of python configuration files.  The interpreter's import machinery enters as functions of the
+        # call (Section variables of C20/Source2.v): sys.path.insert answers None - what it does to the search is part
+        # of the hypothesis about importlib.import_module, which is therefore given the directory `head` besides the
+        # name; module.__file__ is the field "file" of the module object; importlib.util.module_from_spec answers
+        # the module as spec.loader.exec_module (result dropped) leaves it (aliasing is not modelled)
+        (conf, "Config._load", {
+            "name": "src2_config_load_module", "params": ["self", "fil"],
+            "extra_params": [("path_split", F1), ("sys_path", "pyval"), ("path_insert", F2), ("import_module", F2),
+                             ("abspath", F1), ("path_join", F2), ("isfile", F1), ("samefile", F2), ("spec_from_file", F2),
+                             ("module_from_spec", F1), ("exec_module", F2)],
+            "globals": {"sys.path": "sys_path"},
+            "calls": {"os.path.split": lambda a: "(path_split %s)" % a[0],
+                      "sys.path.insert": lambda a: "(path_insert %s %s)" % (a[0], a[1]),
+                      "importlib.import_module": lambda a: "(import_module v_head %s)" % a[0],
+                      "os.path.abspath": lambda a: "(abspath %s)" % a[0],
+                      "os.path.join": lambda a: "(path_join %s %s)" % (a[0], a[1]),
+                      "os.path.isfile": lambda a: "(isfile %s)" % a[0],
+                      "os.path.samefile": lambda a: "(samefile %s %s)" % (a[0], a[1]),
+                      "importlib.util.spec_from_file_location": lambda a: "(spec_from_file %s %s)" % (a[0], a[1]),
+                      "importlib.util.module_from_spec": lambda a: "(module_from_spec %s)" % a[0],
+                      "spec.loader.exec_module": lambda a: "(exec_module v_spec %s)" % a[0],
+                      "getattr": _module_file}}),
+        (conf, "Config.load_file", {
+            "name": "src2_config_load_file", "params": ["self", "config_filename", "metadata_construction"],
+            "extra_params": [("load_module", F2), ("deepcopy", F1), ("config_load", F2)],
+            "ignore_calls": ["logger.warning", "_warn"],
+            "calls": {"self._load": lambda a: "(load_module v_self %s)" % a[0],
+                      "copy.deepcopy": lambda a: "(deepcopy %s)" % a[0],
+                      "self.load": lambda a: "(config_load v_self %s)" % a[0]}}),
         (sig, "security_context", {
             "name": "src2_security_context", "params": ["conf"], "returns_state": ["conf"], "attr_errors": True,
             "extra_params": [("import_key", F1), ("read_cert", F1), ("path_exists", F1), ("find_xmlsec", F1),
@@ -669,7 +742,7 @@ def abstract_location(url, ents, pubs=None):
     a = ALG_URIS.index(q["SigAlg"]) if q["SigAlg"] in ALG_URIS else 6
     for pk in pubs:
         ok = False
-        if a < 5:
+        if a < 5 and pk is not None:
             try:
                 pk.verify(sig, octs, padding.PKCS1v15(), _hash(a))
                 ok = True
@@ -922,13 +995,42 @@ STAMP0 = 1700000000
 HOWS = ["overwrite", "rename", "symlink"]
 
 
+class LoaderSim:
+    """what Config._load does now, as Model.load_module says it (generator-side prediction only: which entities will
+    exist, so that jobs can be given to them; the verdicts are Coq's, on what the real code did)"""
+
+    def __init__(self):
+        self.files, self.mods, self.spath = {}, {}, []
+
+    def load(self, d, b):
+        sp = [d] + self.spath
+        self.spath = sp
+        found = self.mods.get(b)
+        if found is None:
+            for x in sp:
+                if self.files.get((x, b)) is not None:
+                    found = (x, self.files[(x, b)])
+                    break
+            if found is None:
+                return None
+            self.mods[b] = found
+        d0, c0 = found
+        cnow = self.files.get((d, b))
+        if cnow is None or d0 == d:
+            return c0
+        return cnow if self.files.get((d0, b)) is not None else None
+
+
 def deploy_ents(deploy):
-    """(kind, key pair installed at the entity's path when it is built) per entity, in creation order"""
-    fs, ents, confs = {}, [], []
+    """(kind, key pair the entity is expected to hold) per entity, in creation order; key pair None = a slot whose
+    entity is expected not to come into being (file steps always have a slot)"""
+    fs, ents, confs, ld = {}, [], [], LoaderSim()
     for st in deploy:
         if st[0] == "install":
             fs[st[1]] = st[2]
         elif st[0] == "create":
+            ents.append([st[2], fs[st[1]]])
+        elif st[0] == "factory":
             ents.append([st[2], fs[st[1]]])
         elif st[0] == "conf":
             _, p, kind, _eid, how, parent = st
@@ -939,7 +1041,21 @@ def deploy_ents(deploy):
         elif st[0] == "build":
             kind, p = confs[st[1]]
             ents.append([kind, fs[p]])
+        elif st[0] == "write":
+            ld.files[(st[1], st[2])] = (st[3], st[4])       # (path named, kind)
+        elif st[0] == "unlink":
+            ld.files[(st[1], st[2])] = None
+        elif st[0] == "loadfile":
+            c = ld.load(st[1], st[2])
+            ents.append([st[3], fs.get(c[0]) if c is not None else None])
     return ents
+
+
+FILE_STEPS = ("write", "unlink", "loadfile", "factory")
+
+
+def has_file_steps(deploy):
+    return any(st[0] in FILE_STEPS for st in deploy)
 
 
 def pool_case(tag, deploy, gates, jobs, workers, sched, fixture):
@@ -963,9 +1079,23 @@ def worker_segments(case, w):
     return 1 + sum(len(op_gates(op, case["gates"])) for j in case["workers"][w] for op in case["threads"][j]["ops"])
 
 
-def main_prefix(case):
-    """schedule entries of worker 0: the main thread runs its jobs to the end before the pool threads start"""
-    return [0] * worker_segments(case, 0) if case["workers"][0] else []
+def main_gates(case, steps):
+    """gates the main thread passes in the call steps of `steps`"""
+    return sum(len(op_gates(op, case["gates"])) for st in steps if st[0] == "call" for op in case["threads"][st[1]]["ops"])
+
+
+def model_sched(case):
+    """the worker schedule the model is run with: the main thread (worker 0) runs its jobs inline - the calls of the
+    early part of the script before the pool threads start, those of the late part (case["late"] = [number of early
+    steps, position in the schedule]) while the pool threads wait at their gates"""
+    if not case["workers"][0]:
+        return list(case["sched"])
+    late = case.get("late")
+    if not late:
+        return [0] * worker_segments(case, 0) + list(case["sched"])
+    n_early, k = late
+    return ([0] * main_gates(case, case["deploy"][:n_early]) + list(case["sched"][:k])
+            + [0] * (main_gates(case, case["deploy"][n_early:]) + 1) + list(case["sched"][k:]))
 
 
 def _install(root, p, k, stamp, how, serial):
@@ -1061,6 +1191,115 @@ def _build(kind, conf):
     return e, e.sec.my_cert
 
 
+MODNAME = "c20conf_%d"      # base name b of a configuration module; the file is <root>/t<dir>/c20conf_<b>.py
+
+
+def _conf_file(root, d, b):
+    return os.path.join(root, "t%d" % d, (MODNAME % b) + ".py")
+
+
+def _write_conf(root, st):
+    """["write", dir, base, p, kind, eidmode]: the configuration module dir/base.py is written (or edited) - a complete
+    sp / idp CONFIG naming key_file / cert_file at path p.  importlib.invalidate_caches() is what the documentation of
+    importlib asks of a program that creates modules while it runs (directory listings are cached)."""
+    import importlib
+
+    _, d, b, pth, kind, eidmode = st
+    key_file, cert_file = _paths(root, pth)
+    conf = (world.sp_config if kind == "sp" else world.idp_config)(
+        key_file=key_file, cert_file=cert_file,
+        entityid=("https://t%d.example.org/%s-%d" % (d, kind, b)) if eidmode else "https://tenant.example.org/%s" % kind)
+    os.makedirs(os.path.dirname(_conf_file(root, d, b)), exist_ok=True)
+    tmp = _conf_file(root, d, b) + ".tmp"
+    with open(tmp, "w") as f:
+        f.write("# configuration of tenant directory %d, module %d\nCONFIG = %r\n" % (d, b, conf))
+    os.replace(tmp, _conf_file(root, d, b))
+    importlib.invalidate_caches()
+
+
+def _unlink_conf(root, st):
+    import importlib
+
+    try:
+        os.unlink(_conf_file(root, st[1], st[2]))
+    except FileNotFoundError:
+        pass
+    importlib.invalidate_caches()
+
+
+def _load_conf(root, st):
+    """["loadfile", dir, base, kind, api, spell]: an entity built from the python configuration file; api 0
+    <Class>Config().load_file(f) + entity(config=), 1 config_factory(type, f) + entity(config=), 2 entity(config_file=f);
+    spell 0 absolute, 1 absolute + ".py", 2 relative to the working directory, 3 relative + ".py".
+    Returns (entity, certificate it publishes) or (None, None) when the loader or the constructor raised."""
+    from saml2.client import Saml2Client
+    from saml2.config import IdPConfig, SPConfig, config_factory
+    from saml2.server import Server
+
+    _, d, b, kind, api, spell = st
+    f = _conf_file(root, d, b)[:-3]
+    if spell >= 2:
+        f = os.path.relpath(f, os.getcwd())
+    if spell % 2:
+        f += ".py"
+    cls = Saml2Client if kind == "sp" else Server
+    try:
+        if api == 0:
+            e = cls(config=(SPConfig if kind == "sp" else IdPConfig)().load_file(f))
+        elif api == 1:
+            e = cls(config=config_factory(kind, f))
+        else:
+            e = cls(config_file=f)
+        return e, e.sec.my_cert
+    except Exception:
+        return None, None
+
+
+def _factory(root, st, n):
+    """["factory", p, kind, eidmode]: config_factory(type, dict) - the dict is deep-copied and loaded"""
+    from saml2.client import Saml2Client
+    from saml2.config import config_factory
+    from saml2.server import Server
+
+    _, pth, kind, eidmode = st
+    key_file, cert_file = _paths(root, pth)
+    d = (world.sp_config if kind == "sp" else world.idp_config)(key_file=key_file, cert_file=cert_file,
+                                                               entityid=_eid(pth, kind, eidmode, n))
+    e = (Saml2Client if kind == "sp" else Server)(config=config_factory(kind, d))
+    return e, e.sec.my_cert
+
+
+class ImportState:
+    """sys.path / sys.modules / importer caches / working directory / bytecode switch as they were, put back after a
+    case: cases stay independent, nothing of the scratch directory is needed afterwards.  Relative entries ("." and
+    the like) are dropped from sys.path_importer_cache at the start too: importlib FREEZES the directory of such an
+    entry when it is first used, the cases are about a process whose working directory does not change."""
+
+    def __enter__(self):
+        self.path, self.cwd, self.dwb = list(sys.path), os.getcwd(), sys.dont_write_bytecode
+        # the process's own sys.path names no working directory ('' under `python -c`, relative entries): the model's
+        # search path starts empty - only the directories the loads themselves insert can hold configuration modules
+        sys.path[:] = [x for x in sys.path if os.path.isabs(x)]
+        for k in [k for k in sys.path_importer_cache if not os.path.isabs(k)]:
+            del sys.path_importer_cache[k]
+        self.pic = set(sys.path_importer_cache)
+        sys.dont_write_bytecode = True      # no __pycache__ in the tenant directories: a pyc is validated by mtime
+        return self                         # (seconds) + size only, an edit within the second would go unseen by PYTHON
+
+    def __exit__(self, *exc):
+        import importlib
+
+        os.chdir(self.cwd)
+        sys.path[:] = self.path
+        for k in [k for k in sys.modules if k.startswith("c20conf_")]:
+            del sys.modules[k]
+        for k in [k for k in sys.path_importer_cache if k not in self.pic]:
+            del sys.path_importer_cache[k]
+        sys.dont_write_bytecode = self.dwb
+        importlib.invalidate_caches()
+        return False
+
+
 _certid = {}
 
 
@@ -1080,6 +1319,13 @@ def pub_of_body(body):
 
 
 def observe_pool(case):
+    if has_file_steps(case["deploy"]):
+        with ImportState():
+            return _observe_pool(case)
+    return _observe_pool(case)
+
+
+def _observe_pool(case):
     global _CUR
     import shutil
     import tempfile
@@ -1099,6 +1345,8 @@ def observe_pool(case):
     s = Sched(n, case["gates"])
     s.inline.add(0)
     s.done[0] = True
+    src = has_file_steps(case["deploy"])
+    n_early = case["late"][0] if case.get("late") else len(case["deploy"])
 
     def run_job(w, j):
         th = jobs[j]
@@ -1106,6 +1354,8 @@ def observe_pool(case):
         for op in th["ops"]:
             try:
                 ent, kind = ents[th["ent"]], kinds[th["ent"]]
+                if ent is None:
+                    raise RuntimeError("no such entity")      # a slot whose entity did not come into being
                 if op[0] == "S":
                     r = ("url", do_sign(ent, kind, th["via"], op[1], op[2]))
                 else:
@@ -1124,18 +1374,24 @@ def observe_pool(case):
     root = None if case["fixture"] else tempfile.mkdtemp(prefix="c20-deploy-")
     failure = []
 
-    def main_role():
+    def main_role(steps):
         # the process's main thread is played by a FRESH OS thread per case (ended before the pool threads start):
         # whatever a changed library may keep per OS thread cannot travel from one case to the next, so that a
         # failing case fails again when it is replayed alone
-        s.idx[threading.get_ident()] = 0
-        try:
-            deployment()
-        except BaseException as e:      # noqa: B902 - reported below, in the calling thread
-            failure.append(e)
+        def run():
+            s.idx[threading.get_ident()] = 0
+            try:
+                deployment(steps)
+            except BaseException as e:      # noqa: B902 - reported below, in the calling thread
+                failure.append(e)
+        mt = threading.Thread(target=run, daemon=True)
+        mt.start()
+        mt.join(120)
+        if failure or mt.is_alive():
+            raise RuntimeError("deployment script failed: %r" % (failure or "timeout"))
 
-    def deployment():
-        for serial, st in enumerate(case["deploy"]):
+    def deployment(steps):
+        for serial, st in steps:
             if st[0] == "install":
                 if root:
                     _install(root, st[1], st[2], st[3], st[4], serial)
@@ -1163,22 +1419,48 @@ def observe_pool(case):
                 import saml2.sigver as sv
 
                 sv.security_context(confs[st[1]][1])      # per message in response.py; the result is dropped
+            elif st[0] == "write":
+                _write_conf(root, st)
+            elif st[0] == "unlink":
+                _unlink_conf(root, st)
+            elif st[0] == "loadfile":
+                e, body_ = _load_conf(root, st)
+                ents.append(e)
+                kinds.append(st[3])
+                certs.append(body_)
+            elif st[0] == "factory":
+                e, body_ = _factory(root, st, len(ents))
+                ents.append(e)
+                kinds.append(st[2])
+                certs.append(body_)
             else:
                 run_job(0, st[1])
 
     _CUR = s
     try:
-        # --- the main thread: deployment script
-        mt = threading.Thread(target=main_role, daemon=True)
-        mt.start()
-        mt.join(120)
-        if failure or mt.is_alive():
-            raise RuntimeError("deployment script failed: %r" % (failure or "timeout"))
+        if src:
+            os.makedirs(os.path.join(root, "work"))
+            for st in case["deploy"]:       # the tenant directories exist, whether or not a file is (still) in them
+                if st[0] in ("write", "unlink", "loadfile"):
+                    os.makedirs(os.path.join(root, "t%d" % st[1]), exist_ok=True)
+            cwd = case.get("cwd", -1)
+            os.makedirs(os.path.join(root, "t%d" % max(cwd, 0)), exist_ok=True)
+            os.chdir(os.path.join(root, "work") if cwd < 0 else os.path.join(root, "t%d" % cwd))
+        # --- the main thread: deployment script (its early part)
+        steps = list(enumerate(case["deploy"]))
+        main_role(steps[:n_early])
         # --- the pool threads
         threads = [threading.Thread(target=s.worker, args=(w, body(w)), daemon=True) for w in range(1, n)]
         for t in threads:
             t.start()
-        for w in case["sched"]:
+        k_late = case["late"][1] if case.get("late") else len(case["sched"])
+        for w in case["sched"][:k_late]:
+            s.release(w)
+        if case.get("late"):
+            # --- the main thread again, while the pool threads wait at their gates: further entities are built
+            #     (configuration files loaded) and sign
+            main_role(steps[n_early:])
+        for w in case["sched"][k_late:]:
             s.release(w)
         complete = all(s.done)
         counts = [len(r) for r in results]
@@ -1191,9 +1473,11 @@ def observe_pool(case):
             t.join(30)
     finally:
         _CUR = None
+        if src:
+            os.chdir("/")
         if root:
             shutil.rmtree(root, ignore_errors=True)
-    pubs = [pub_of_body(b) for b in certs]
+    pubs = [pub_of_body(b) if b is not None else None for b in certs]
     outs = []
     for j in range(len(jobs)):
         row = []
@@ -1205,8 +1489,12 @@ def observe_pool(case):
             else:
                 row.append({"k": r[0]})
         outs.append(row)
-    return {"outs": outs, "trace": [[j, g] for j, g in trace], "complete": complete, "drained": drained,
-            "certs": [cert_id(b) for b in certs]}
+    if src:
+        # a slot without entity publishes nothing (0); a certificate that is none of the fixture certificates is 1
+        ids = [0 if b is None else (cert_id(b) or 1) for b in certs]
+    else:
+        ids = [cert_id(b) for b in certs]
+    return {"outs": outs, "trace": [[j, g] for j, g in trace], "complete": complete, "drained": drained, "certs": ids}
 
 
 def pool_sched(rng, case, stutter=True):
@@ -1545,6 +1833,202 @@ def random_lineage_case(rng):
     return finish_random_deployment(rng, "lineage-random", deploy)
 
 
+# ------------------------------------------------------------------------------------ configuration sources
+# Where an entity's configuration comes from: a dict (create: <Class>Config().load(dict); factory: config_factory(type,
+# dict)), a Config object (conf / build), a python FILE <dir>/<base>.py binding CONFIG (write / unlink / loadfile:
+# load_file, config_factory(type, file), config_file= of Saml2Client / Server; with / without ".py", absolute /
+# relative to the working directory).  Several tenants in one process: same / different base names in the same /
+# different directories, loaded in varying order, the same file twice, files edited / removed after a load, files that
+# do not exist; loads by the main thread before the pool threads start and while they wait at their gates.
+def src_case(rng, tag, deploy, cwd=-1, late_at=None, p_main=0.0, gates=None, n_workers=None, alg=None, sched="random"):
+    """deploy: script without call steps.  One signing job per entity that is expected to exist; entities built in
+    the late part (deploy[late_at:]) are called by the main thread right after they are built, the others are served
+    by the pool threads (or, with probability p_main, by the main thread as well)."""
+    ents = deploy_ents(deploy)
+    a = alg if alg is not None else rng.choice([0, 2, 2, 4])
+    jobs, d2, main_jobs, pool_jobs = [], [], [], []
+    n_early, e = None, 0
+    for i, st in enumerate(deploy):
+        if late_at is not None and i == late_at:
+            n_early = len(d2)
+        d2.append(st)
+        if st[0] in ("create", "build", "loadfile", "factory"):
+            kind, k = ents[e]
+            if k is not None:
+                j = len(jobs)
+                jobs.append(T(e, [S(a, rng.randrange(MAXMSG))], "pack" if kind == "raw" or rng.random() < 0.3 else "entity"))
+                if (late_at is not None and i >= late_at) or rng.random() < p_main:
+                    d2.append(["call", j])
+                    main_jobs.append(j)
+                else:
+                    pool_jobs.append(j)
+            e += 1
+    if late_at is not None and n_early is None:
+        n_early = len(d2)
+    n_w = n_workers or rng.randint(1, 3)
+    pool = [[] for _ in range(n_w)]
+    for j in pool_jobs:
+        pool[rng.randrange(n_w)].append(j)
+    workers = [main_jobs] + ([w for w in pool if w] or [[]])
+    gates = gates or rng.choice([ENTRY, ALL, ["gx", "se"], ["ge"]])
+    c = pool_case(tag, d2, gates, jobs, workers, [], False)
+    c["cwd"] = cwd
+    if sched == "random":
+        c["sched"] = pool_sched(rng, c)
+        if late_at is not None:
+            # a stutter entry naming the main thread would, in the model, let it go on with its LATE jobs
+            c["sched"] = [w for w in c["sched"] if w != 0]
+            c["late"] = [n_early, rng.randrange(len(c["sched"]) + 1)]
+    return c
+
+
+def _installs(rng, n):
+    ks = rng.sample(range(5), n)
+    return [["install", p, ks[p], 50, rng.randrange(3)] for p in range(n)]
+
+
+def _ld(rng, d, b, kind, api=None, spell=None):
+    return ["loadfile", d, b, kind, rng.randrange(3) if api is None else api, rng.randrange(4) if spell is None else spell]
+
+
+def source_cases(ctx):
+    rng = ctx.rng
+    out = []
+    A, B, C = 0, 1, 2
+    P, Q, R = 0, 1, 2
+    reps = 3 if ctx.thorough else 1
+    layouts = {"same-base-two-dirs": ((A, 0), (B, 0)), "two-bases-one-dir": ((A, 0), (A, 1)),
+               "two-bases-two-dirs": ((A, 0), (B, 1)), "same-file-twice": ((A, 0), (A, 0))}
+    # --- two tenants: complete over layout x entry point x kind of entity; order, spelling, working directory seeded
+    for name, (f1, f2) in layouts.items():
+        for api in (0, 1, 2):
+            for kind in ("sp", "idp"):
+                for _ in range(reps):
+                    d = _installs(rng, 2) + [["write", f1[0], f1[1], P, kind, 1]]
+                    if f2 != f1:
+                        d.append(["write", f2[0], f2[1], Q, kind, rng.randrange(2)])
+                    loads = [_ld(rng, f1[0], f1[1], kind, api), _ld(rng, f2[0], f2[1], kind, api if rng.random() < 0.5 else None)]
+                    if rng.random() < 0.5:
+                        loads.reverse()
+                    if rng.random() < 0.4:
+                        loads.append(_ld(rng, loads[0][1], loads[0][2], kind))
+                    late = len(d) + rng.randrange(1, len(loads)) if rng.random() < 0.3 else None
+                    out.append(src_case(rng, "src-" + name, d + loads, cwd=rng.choice([-1, A, B]), late_at=late,
+                                        p_main=0.2))
+    # --- the same base name in two directories: complete over spelling x working directory
+    for spell in range(4):
+        for cwd in (-1, A, B):
+            kind = rng.choice(["sp", "idp"])
+            d = _installs(rng, 2) + [["write", A, 0, P, kind, 1], ["write", B, 0, Q, kind, 1]]
+            loads = [_ld(rng, A, 0, kind, None, spell), _ld(rng, B, 0, kind, None, spell)]
+            if rng.random() < 0.5:
+                loads.reverse()
+            out.append(src_case(rng, "src-spelling", d + loads, cwd=cwd))
+    # --- every interleaving (entry gates) of two tenants with one base name signing with one algorithm
+    kind = "sp"
+    d = _installs(rng, 2) + [["write", A, 0, P, kind, 1], ["write", B, 0, Q, kind, 1], _ld(rng, A, 0, kind, 2, 1),
+                             _ld(rng, B, 0, kind, 2, 1)]
+    proto = src_case(rng, "src-tenants-all", d, n_workers=2, alg=2, gates=ENTRY, sched=None)
+    proto["workers"] = [[], [0], [1]]
+    scheds = list(interleavings([0, worker_segments(proto, 1), worker_segments(proto, 2)]))
+    if not ctx.thorough:
+        scheds = rng.sample(scheds, 8)
+    for sc in scheds:
+        c = dict(proto)
+        c["sched"] = sc
+        out.append(c)
+    # --- three tenants, one base name, three directories: every load order; the first is loaded again at the end
+    for order in itertools.permutations((A, B, C)):
+        kind = rng.choice(["sp", "idp"])
+        d = _installs(rng, 3) + [["write", x, 0, x, kind, 1] for x in (A, B, C)]
+        loads = [_ld(rng, x, 0, kind) for x in order] + [_ld(rng, order[0], 0, kind)]
+        late = len(d) + rng.randrange(1, 4) if rng.random() < 0.5 else None
+        out.append(src_case(rng, "src-three-tenants", d + loads, cwd=rng.choice([-1, A, B, C]), late_at=late))
+    # --- files edited / removed after a load (importlib keeps the module loaded first under a name)
+    for _ in range(reps):
+        kind = rng.choice(["sp", "idp"])
+        W = lambda x, b, pth: ["write", x, b, pth, kind, 1]     # noqa: E731
+        L = lambda x, b: _ld(rng, x, b, kind)                    # noqa: E731
+        edits = [
+            ("src-edit-first-loaded", 2, [W(A, 0, P), L(A, 0), W(A, 0, Q), L(A, 0)]),
+            ("src-edit-second-dir", 3, [W(A, 0, P), W(B, 0, Q), L(A, 0), L(B, 0), W(B, 0, R), L(B, 0)]),
+            ("src-edit-before-load", 2, [W(A, 0, P), W(A, 0, Q), L(A, 0)]),
+            ("src-unlink-rewrite", 2, [W(A, 0, P), L(A, 0), ["unlink", A, 0], W(A, 0, Q), L(A, 0)]),
+            ("src-edit-crossed", 3, [W(A, 0, P), W(B, 0, Q), L(A, 0), W(A, 0, R), L(B, 0), L(A, 0)]),
+            ("src-own-file-removed", 1, [W(A, 0, P), L(A, 0), ["unlink", A, 0], L(A, 0)]),
+            ("src-found-file-removed", 2, [W(A, 0, P), W(B, 0, Q), L(A, 0), ["unlink", A, 0], L(B, 0), L(A, 0)]),
+        ]
+        for tag, n, steps in edits:
+            out.append(src_case(rng, tag, _installs(rng, n) + steps, cwd=rng.choice([-1, A, B])))
+        # the key FILES are rolled over under a module that stays: the pair is read when the entity is built
+        k0, k1 = rng.sample(range(5), 2)
+        out.append(src_case(rng, "src-keyfile-rollover", [["install", P, k0, 50, 0], W(A, 0, P), L(A, 0),
+                                                          ["install", P, k1, 50, rng.randrange(3)], L(A, 0)]))
+        # --- configuration files that do not exist (finding C20-F3: answered by another directory's module)
+        missing = [
+            ("src-missing-cached-name", 1, [W(A, 0, P), L(A, 0), L(B, 0)]),
+            ("src-missing-dir-on-path", 2, [W(A, 0, P), W(A, 1, Q), L(A, 0), L(B, 1)]),
+            ("src-missing-first", 1, [L(B, 0), W(A, 0, P), L(A, 0)]),
+            ("src-missing-third", 2, [W(A, 0, P), W(B, 0, Q), L(A, 0), L(B, 0), L(C, 0)]),
+        ]
+        for tag, n, steps in missing:
+            out.append(src_case(rng, tag, _installs(rng, n) + steps, cwd=rng.choice([-1, A, B])))
+    # --- all kinds of sources in one process, all gates, loads while the pool threads wait at their gates
+    for _ in range(24 if ctx.thorough else 6):
+        kind = rng.choice(["sp", "idp"])
+        d = _installs(rng, 4)
+        pre = [["create", 0, rng.choice(["raw", kind]), 1], ["factory", 1, kind, 1], ["conf", 2, kind, 1, 0, 0], ["build", 0],
+               ["write", A, 0, 3, kind, 1], ["write", B, 0, 0, kind, 1]]
+        rng.shuffle(pre)
+        if pre.index(["build", 0]) < pre.index(["conf", 2, kind, 1, 0, 0]):
+            i, j = pre.index(["build", 0]), pre.index(["conf", 2, kind, 1, 0, 0])
+            pre[i], pre[j] = pre[j], pre[i]
+        loads = [_ld(rng, A, 0, kind), _ld(rng, B, 0, kind)]
+        rng.shuffle(loads)
+        out.append(src_case(rng, "src-mixed", d + pre + loads, cwd=rng.choice([-1, A, B]), late_at=len(d) + len(pre),
+                            gates=ALL, p_main=0.15))
+    for _ in range(500 if ctx.thorough else 14):
+        out.append(random_source_case(rng))
+    return out
+
+
+def random_source_case(rng):
+    kind = rng.choice(["sp", "idp"])
+    n_paths = rng.randint(2, 3)
+    dirs = [0, 1, 2][:rng.randint(2, 3)]
+    bases = [0, 1][:rng.randint(1, 2)]
+    deploy = _installs(rng, n_paths)
+    files = {}
+    n_ent, n_target, guard = 0, rng.randint(2, 4), 0
+    first_late = None
+    while n_ent < n_target and guard < 60:
+        guard += 1
+        r = rng.random()
+        if r < 0.30 or not files:
+            f = (rng.choice(dirs), rng.choice(bases))
+            files[f] = True
+            deploy.append(["write", f[0], f[1], rng.randrange(n_paths), kind, rng.randrange(2)])
+        elif r < 0.36:
+            f = rng.choice(sorted(files))
+            files[f] = False
+            deploy.append(["unlink", f[0], f[1]])
+        elif r < 0.82:
+            f = rng.choice(sorted(files)) if rng.random() < 0.85 else (rng.choice(dirs), rng.choice(bases))
+            deploy.append(_ld(rng, f[0], f[1], kind))
+            n_ent += 1
+        elif r < 0.88:
+            deploy.append(["factory", rng.randrange(n_paths), kind, 1])
+            n_ent += 1
+        elif r < 0.93:
+            deploy.append(["create", rng.randrange(n_paths), "raw", 1])
+            n_ent += 1
+        else:
+            deploy.append(["install", rng.randrange(n_paths), rng.randrange(5), 50 + rng.choice([0, 0, 1, 36]), rng.randrange(3)])
+        if first_late is None and n_ent >= 1 and rng.random() < 0.2:
+            first_late = len(deploy)
+    return src_case(rng, "src-random", deploy, cwd=rng.choice([-1] + dirs), late_at=first_late, p_main=0.15)
+
+
 def generate(ctx):
     rng = ctx.rng
     install_gates()
@@ -1603,7 +2087,7 @@ def generate(ctx):
     out += fine_cases(ctx)
     # building entities costs 40-100 ms each (RSA key parsing): the deployment cases are spread evenly over the list so
     # that the chunks of the fork pool stay balanced (the order of the cases means nothing)
-    dep = deployment_cases(ctx) + lineage_cases(ctx)
+    dep = deployment_cases(ctx) + lineage_cases(ctx) + source_cases(ctx)
     step = max(1, len(out) // (len(dep) + 1))
     for i, c in enumerate(dep):
         out.insert(min(len(out), (i + 1) * step + i), c)
@@ -1725,7 +2209,7 @@ def cq_res(r):
 
 
 def coq_case(case, obs):
-    keys = "[%s]" % "; ".join(str(KID0 + k) for _kind, k in case["ents"])
+    keys = "[%s]" % "; ".join(str(KID0 + k if k is not None else 0) for _kind, k in case["ents"])
     gates = "[%s]" % "; ".join(GATE_COQ[g] for g in case["gates"])
     progs = "[%s]" % "; ".join("(%d, [%s])" % (th["ent"], "; ".join(cq_op(o) for o in th["ops"])) for th in case["threads"])
     sched = "[%s]" % "; ".join(str(t) for t in case["sched"])
@@ -1745,13 +2229,21 @@ def coq_case(case, obs):
                 steps.append("DBuild %d" % st[1])
             elif st[0] == "ctx":
                 steps.append("DCtx %d" % st[1])
+            elif st[0] == "write":
+                steps.append("DWrite %d %d %d" % (st[1], st[2], st[3]))
+            elif st[0] == "unlink":
+                steps.append("DUnlink %d %d" % (st[1], st[2]))
+            elif st[0] == "loadfile":
+                steps.append("DLoadFile %d %d %d %d" % (st[1], st[2], st[4], st[5]))
+            elif st[0] == "factory":
+                steps.append("DFactory %d" % st[1])
             else:
                 steps.append("DCall %d" % st[1])
         trace = "[%s]" % "; ".join("(%d, %s)" % (t, GATE_COQ[g]) for t, g in obs["trace"])
         workers = "[%s]" % "; ".join("[%s]" % "; ".join(str(j) for j in w) for w in case["workers"])
-        wsched = "[%s]" % "; ".join(str(t) for t in main_prefix(case) + case["sched"])
-        return "C20.Corr.mk_pool [%s] %s %s %s %s %s %s %s [%s]" % (
-            "; ".join(steps), gates, progs, workers, wsched, outs, trace,
+        wsched = "[%s]" % "; ".join(str(t) for t in model_sched(case))
+        return "C20.Corr.%s [%s] %s %s %s %s %s %s %s [%s]" % (
+            "mk_src" if has_file_steps(case["deploy"]) else "mk_pool", "; ".join(steps), gates, progs, workers, wsched, outs, trace,
             "true" if obs["complete"] and not obs["drained"] else "false", "; ".join(str(c) for c in obs["certs"]))
     trace = "[%s]" % "; ".join("(%d, %s)" % (t, GATE_COQ[g]) for t, g in obs["trace"])
     return "C20.Corr.mk %s %s %s %s %s %s %s" % (keys, gates, progs, sched, outs, trace,
@@ -1779,9 +2271,10 @@ def nontrivial(case, obs):
                 rolled = rolled or st[1] in seen
                 seen.add(st[1])
         derived = any(st[0] == "conf" and st[4] != 0 for st in case["deploy"])
-        if not (shared or rolled or derived):
+        if not (shared or rolled or derived or has_file_steps(case["deploy"])):
             return None
-        cfg = hashlib.sha1(repr((case["deploy"], case["gates"], case["threads"], case["workers"])).encode()).hexdigest()[:10]
+        cfg = hashlib.sha1(repr((case["deploy"], case["gates"], case["threads"], case["workers"], case.get("cwd"),
+                                 case.get("late"))).encode()).hexdigest()[:10]
         return [cfg, case["sched"]]
     if not v0_sensitive(case):
         return None
@@ -1792,7 +2285,7 @@ def nontrivial(case, obs):
 def histogram(cases, observed):
     h = {"by_tag": {}, "threads": {}, "results": {}, "schedule_len": {}, "switches": {},
          "window_interleaved(v0_sensitive)": 0, "gate_events": 0, "sig_alg": {}, "via": {},
-         "fine_mode_cases": {}, "fine_mode_scheduling_points": 0, "pool_cases": {}, "deploy": {}}
+         "fine_mode_cases": {}, "fine_mode_scheduling_points": 0, "pool_cases": {}, "deploy": {}, "sources": {}}
     for c, o in zip(cases, observed):
         if c.get("mode") in ("line", "opcode"):
             h["fine_mode_cases"][c["mode"]] = h["fine_mode_cases"].get(c["mode"], 0) + 1
@@ -1827,6 +2320,8 @@ def histogram(cases, observed):
                         h["deploy"][key] = h["deploy"].get(key, 0) + 1
                     elif st[0] == "ctx":
                         h["deploy"]["security_context_calls"] = h["deploy"].get("security_context_calls", 0) + 1
+                if has_file_steps(c["deploy"]):
+                    source_histogram(c, o, h["sources"])
         elif c.get("mode") not in ("line", "opcode") and v0_sensitive(c):
             h["window_interleaved(v0_sensitive)"] += 1
         h["gate_events"] += len(o["trace"])
@@ -1844,6 +2339,51 @@ def histogram(cases, observed):
                     k = "ver:%s" % r["b"]
                 h["results"][k] = h["results"].get(k, 0) + 1
     return h
+
+
+def source_histogram(c, o, h):
+    """what the source cases exercised (statistics; the model's view of every load is recomputed here)"""
+    def inc(k, n=1):
+        h[k] = h.get(k, 0) + n
+    inc("cases")
+    inc("cwd:" + ("scratch" if c.get("cwd", -1) < 0 else "a-tenant-directory"))
+    if c.get("late"):
+        inc("loads_while_pool_threads_wait_at_gates")
+    ld, n = LoaderSim(), 0
+    for st in c["deploy"]:
+        if st[0] == "write":
+            inc("file:edited" if ld.files.get((st[1], st[2])) is not None else "file:written")
+            ld.files[(st[1], st[2])] = (st[3], st[4])
+        elif st[0] == "unlink":
+            inc("file:removed")
+            ld.files[(st[1], st[2])] = None
+        elif st[0] == "factory":
+            inc("config_factory(dict)")
+            n += 1
+        elif st[0] in ("create", "build"):
+            n += 1
+        elif st[0] == "loadfile":
+            inc("api:" + ("load_file", "config_factory(file)", "config_file=")[st[4]])
+            inc("spelling:" + ("absolute", "absolute.py", "relative", "relative.py")[st[5]])
+            cached = ld.mods.get(st[2])
+            now = ld.files.get((st[1], st[2]))
+            got = ld.load(st[1], st[2])
+            if now is None:
+                origin = ld.mods.get(st[2])
+                inc("load:file-missing->" + ("raises" if got is None else
+                                             "answered-by-its-own-earlier-module" if origin and origin[0] == st[1] else
+                                             "answered-by-another-module(C20-F3)"))
+            elif got is None:
+                inc("load:raises(file of the module found was removed)")
+            elif cached is None:
+                inc("load:first-of-its-name")
+            elif cached[0] == st[1]:
+                inc("load:same-file-again" + ("(stale: edited since)" if got != now else ""))
+            else:
+                inc("load:same-name-other-directory")
+            n += 1
+    inc("entities_observed", sum(1 for x in o["certs"] if x))
+    inc("slots_without_entity", sum(1 for x in o["certs"] if not x))
 
 
 def explain_term(term):
